@@ -43,6 +43,16 @@ void drv_c16_bin(int tier, unsigned long seed, const char *extra) {
         if (kk <= 35) { callf("drv_rndz", 1, 1 + (int)rnd_below(3), 0, (int)(rnd64() & 1)); shrinkz(0); callf("mpz_bin_ui", 0, 1, kk); callf("mpz_set", 0, 1); callf("mpz_bin_ui", 0, 0, kk); } }
       for (j = 0; j < 3; j++) callf("mpz_clear", j); rec_quiesce();
     } }
+  /* the prime-sieve (Goetgheluck) region k > 1000, k > n/16: runs of consecutive n (every residue, n = 2p, n prime, n = p^2 ...) */
+  { static const uint64_t gk[] = {1001, 1013, 1500, 2500}; int gi, seg;
+    for (gi = 0; gi < 4; gi++) for (seg = 0; seg < 3; seg++) {
+      uint64_t kk = gk[gi], n0 = seg == 0 ? 2 * kk : seg == 1 ? 5 * kk + 3 : 16 * kk - 45, nn; int cnt = seg == 0 ? 70 : 44;
+      x++; if (!MINE(sh, x)) continue;
+      if (!tier && gi >= 2 && seg == 1) continue;
+      rec_reset("c16_bin", x, seed); for (j = 0; j < 3; j++) callf("mpz_init", j);
+      for (nn = n0; nn < n0 + (uint64_t)cnt; nn++) { shrinkz(0); callf("mpz_bin_uiui", 0, nn, kk); if ((nn & 7) == 0) { shrinkz(0); callf("mpz_bin_uiui", 0, nn, nn - kk - 1); } }
+      for (j = 0; j < 3; j++) callf("mpz_clear", j); rec_quiesce();
+    } }
   /* remove: high multiplicities, multi-limb factors */
   for (t = 0; t < 24; t++) {
     x++; if (!MINE(sh, x)) continue;
